@@ -101,8 +101,11 @@ def check(r, ctx):
                                 sc2, pps2 = CommonRoadFileReader(path, file_format=FORMATS[fmt]).open()
                                 tol = (lambda p, t=10.0 ** (-prec): t) if fmt == "xml" else (lambda p: 0)
                                 diffs = fileio.compare_roundtrip(s, fmt, sc2, pps2, tol)
-                                if diffs:
-                                    ctx.discard("reference does not round-trip (C01/C02 business): %s" % diffs[0][0])
+                                if diffs:   # "each such file reads back to the same scenario"
+                                    raise Violation("fresh-writer-file-does-not-read-back-%s" % fmt,
+                                                    "first write of a freshly constructed writer (precision %d): %s: "
+                                                    "%r -> %r (%d differences)" % (prec, diffs[0][0], diffs[0][1],
+                                                                                  diffs[0][2], len(diffs)))
             # ---- history
             writers = []
             nfile = 0
@@ -137,6 +140,31 @@ def check(r, ctx):
                 kind = op[2]
                 path = os.path.join(d, "out%d.%s" % (nfile, fmt))
                 nfile += 1
+                default_name = op[0] == "skip" and len(op) > 4 and op[4]
+                if op[0] == "skip" and default_name:
+                    # the writer chooses the file name itself: <scenario id> with or without the format's suffix, in
+                    # the working directory; both candidates exist already and must stay untouched
+                    junk = bytes(op[3])
+                    base = os.path.join(d, str(scen[si][0].scenario_id))
+                    cands = [base, base + (".xml" if fmt == "xml" else ".pb")]
+                    for c in cands:
+                        with open(c, "wb") as f:
+                            f.write(junk)
+                    cwd = os.getcwd()
+                    os.chdir(d)
+                    try:
+                        do_write(ww["w"], kind, None, OverwriteExistingFile.SKIP)
+                    finally:
+                        os.chdir(cwd)
+                    for c in cands:
+                        with open(c, "rb") as f:
+                            now = f.read()
+                        if now != junk:
+                            raise Violation("skip-modified-default-named-file-" + fmt, "%s: %d bytes before, %d after" % (
+                                os.path.basename(c), len(junk), len(now)))
+                        os.remove(c)
+                    ctx.label("op-skip-default-file-name")
+                    continue
                 if op[0] == "skip":
                     junk = bytes(op[3])
                     with open(path, "wb") as f:
@@ -209,7 +237,7 @@ def s_history(draw, tier=None):
         st.tuples(st.sampled_from(["write", "write", "write", "overwrite"]), st.integers(0, 4),
                   st.sampled_from(["full", "scenario"])),
         st.tuples(st.just("skip"), st.integers(0, 4), st.sampled_from(["full", "scenario"]),
-                  st.lists(st.integers(0, 255), max_size=40)),
+                  st.lists(st.integers(0, 255), max_size=40), st.booleans()),
         st.tuples(st.just("edit"), st.integers(0, 2)))
     first = draw(st.tuples(st.just("new"), st.integers(0, 2), st.sampled_from(["xml", "pb"]), st.integers(0, 2)))
     ops = [list(first)] + [list(o) for o in draw(st.lists(op, min_size=2, max_size=12))]
